@@ -63,6 +63,12 @@ theorem saveFoundR_mono {st : Store} {a : Stored} (ha : st.highest = some a) (c 
     · simpa using storeSaveR_mono ha ⟨i, m⟩ true false
     · simpa using storeSaveR_mono ha ⟨i, m⟩ true true
 
+theorem ite_saveFoundR_mono {st : Store} {a : Stored} (ha : st.highest = some a) (cnd : Bool) (c : Ctrl) (h : Nat) (m : Msg) :
+    ∃ b, (if cnd = true then saveFoundR c st h m else st).highest = some b ∧ Mono a b := by
+  cases cnd
+  · exact ⟨a, by simpa using ha, Mono.refl a⟩
+  · simpa using saveFoundR_mono ha c h m
+
 theorem processMsgR_mono {st : Store} {a : Stored} (ha : st.highest = some a) (q : Nat) (c : Ctrl) (h : Nat) (m : Msg)
     (ok : Bool) : ∃ b, (processMsgR q c st h m ok).2.1.highest = some b ∧ Mono a b := by
   unfold processMsgR
@@ -77,7 +83,8 @@ theorem processMsgR_mono {st : Store} {a : Stored} (ha : st.highest = some a) (q
       · exact ⟨a, ha, Mono.refl a⟩
 
 /-- every op other than a commit/decided message leaves the store alone -/
-theorem step_store_of_not_decided (s : State) (op : Op) (hop : ∀ h r root sg ok via, op ≠ .decided h r root sg ok via) :
+theorem step_store_of_not_decided (s : State) (op : Op) (hop : ∀ h r root sg ok via, op ≠ .decided h r root sg ok via)
+    (hop2 : ∀ h r root sg ok via, op ≠ .decidedSF h r root sg ok via) (hop3 : ∀ root vc, op ≠ .commits root vc) :
     (step s op).1.s = s.s := by
   cases op with
   | start slot =>
@@ -99,6 +106,8 @@ theorem step_store_of_not_decided (s : State) (op : Op) (hop : ∀ h r root sg o
       · rw [h]
       · exact hs
   | decided h r root sg ok via => exact absurd rfl (hop h r root sg ok via)
+  | decidedSF h r root sg ok via => exact absurd rfl (hop2 h r root sg ok via)
+  | commits root vc => exact absurd rfl (hop3 root vc)
   | compact h => rfl
   | restart f => exact (restartStep_cs s f).2.1
 
@@ -106,8 +115,8 @@ theorem step_store_of_not_decided (s : State) (op : Op) (hop : ∀ h r root sg o
     higher height or, at the same height, to a certificate with more signers -/
 theorem stepR_highest_mono (s : State) (op : Op) (a : Stored) (ha : s.s.highest = some a) :
     ∃ b, (stepR s op).1.s.highest = some b ∧ Mono a b := by
-  by_cases hop : ∃ h r root sg ok via, op = .decided h r root sg ok via
-  · obtain ⟨h, r, root, sg, ok, via, rfl⟩ := hop
+  cases op with
+  | decided h r root sg ok via =>
     cases via
     · show ∃ b, (decidedViaCtrlR s h ⟨r, root, sg⟩ ok).1.s.highest = some b ∧ _
       unfold decidedViaCtrlR
@@ -123,16 +132,37 @@ theorem stepR_highest_mono (s : State) (op : Op) (a : Stored) (ha : s.s.highest 
           h ⟨r, root, sg⟩
         exact ⟨b2, hb2, hm1.trans hm2⟩
       · exact ⟨b1, hb1, hm1⟩
-  · have hne : ∀ h r root sg ok via, op ≠ .decided h r root sg ok via := by
-      intro h r root sg ok via he
-      exact hop ⟨h, r, root, sg, ok, via, he⟩
-    have hs : (stepR s op).1.s = s.s := by
-      have : stepR s op = step s op := by
-        cases op with
-        | decided h r root sg ok via => exact absurd rfl (hne h r root sg ok via)
-        | _ => rfl
-      rw [this]
-      exact step_store_of_not_decided s op hne
-    exact ⟨a, by rw [hs]; exact ha, Mono.refl a⟩
+  | decidedSF h r root sg ok via =>
+    cases via
+    · exact ⟨a, ha, Mono.refl a⟩
+    · show ∃ b, (decidedViaRunnerSFR s h ⟨r, root, sg⟩ ok).1.s.highest = some b ∧ _
+      unfold decidedViaRunnerSFR
+      simp only
+      exact ite_saveFoundR_mono ha _ _ _ _
+  | commits root vc =>
+    show ∃ b, (commitsStepR s root vc).1.s.highest = some b ∧ _
+    unfold commitsStepR
+    split
+    · split
+      · split
+        · exact saveFoundR_mono ha _ _ _
+        · exact ⟨a, ha, Mono.refl a⟩
+      · exact ⟨a, ha, Mono.refl a⟩
+    · exact ⟨a, ha, Mono.refl a⟩
+  | start slot =>
+    exact ⟨a, by rw [show stepR s (.start slot) = step s (.start slot) from rfl,
+      step_store_of_not_decided s _ (by intros; intro h; cases h) (by intros; intro h; cases h) (by intros; intro h; cases h)]; exact ha, Mono.refl a⟩
+  | begin slot =>
+    exact ⟨a, by rw [show stepR s (.begin slot) = step s (.begin slot) from rfl,
+      step_store_of_not_decided s _ (by intros; intro h; cases h) (by intros; intro h; cases h) (by intros; intro h; cases h)]; exact ha, Mono.refl a⟩
+  | decide =>
+    exact ⟨a, by rw [show stepR s .decide = step s .decide from rfl,
+      step_store_of_not_decided s _ (by intros; intro h; cases h) (by intros; intro h; cases h) (by intros; intro h; cases h)]; exact ha, Mono.refl a⟩
+  | compact h =>
+    exact ⟨a, by rw [show stepR s (.compact h) = step s (.compact h) from rfl,
+      step_store_of_not_decided s _ (by intros; intro h; cases h) (by intros; intro h; cases h) (by intros; intro h; cases h)]; exact ha, Mono.refl a⟩
+  | restart f =>
+    exact ⟨a, by rw [show stepR s (.restart f) = step s (.restart f) from rfl,
+      step_store_of_not_decided s _ (by intros; intro h; cases h) (by intros; intro h; cases h) (by intros; intro h; cases h)]; exact ha, Mono.refl a⟩
 
 end Ssv.Heights
